@@ -283,7 +283,8 @@ pub enum ScanItem {
 
 struct StorageResolver<'a, B, OC, SC, L> {
     storage: &'a Storage<B, OC, SC, L>,
-    chain: Mutex<Vec<PlainRef>>,
+    // objects currently being loaded, per thread (a resolver can be shared between threads)
+    chain: Mutex<Vec<(std::thread::ThreadId, PlainRef)>>,
 }
 impl<'a, B, OC, SC, L> StorageResolver<'a, B, OC, SC, L> {
     pub fn new(storage: &'a Storage<B, OC, SC, L>) -> Self {
@@ -317,6 +318,7 @@ where
 
     fn get<T: Object+DataSize>(&self, r: Ref<T>) -> Result<RcRef<T>> {
         let key = r.get_inner();
+        let thread = std::thread::current().id();
         self.storage.log.log_get(key);
         
         #[cfg(feature="verif")]
@@ -324,10 +326,10 @@ where
         {
             debug!("get {key:?} as {}", std::any::type_name::<T>());
             let mut chain = self.chain.lock().unwrap();
-            if chain.contains(&key) {
+            if chain.contains(&(thread, key)) {
                 bail!("Recursive reference");
             }
-            chain.push(key);
+            chain.push((thread, key));
         }
         #[cfg(feature="verif")]
         crate::verif::point(crate::verif::GET_PUSHED);
@@ -335,7 +337,10 @@ where
             #[cfg(feature="verif")]
             crate::verif::point(crate::verif::GET_POP);
             let mut chain = self.chain.lock().unwrap();
-            assert_eq!(chain.pop(), Some(key));
+            // entries of other threads may be interleaved with ours
+            if let Some(pos) = chain.iter().rposition(|&entry| entry == (thread, key)) {
+                chain.remove(pos);
+            }
         });
         
         let res = self.storage.cache.get_or_compute(key, || {
